@@ -396,7 +396,7 @@ func (c *Ctx) ErrChecked(rule, key string, fn *ssa.Function, calls []ssa.Instruc
 			if op == nil {
 				return false
 			}
-			k := ErrKindsFrom(op, e, call)
+			k := ErrKindsFromCut(op, e, call, cut)
 			return k["nil"] || k["unknown"]
 		}, SearchOpt{Cut: cut})
 		if hit != nil {
